@@ -177,6 +177,7 @@ def run_plan(plan: dict) -> dict:
             params.update(new_settings["parameters"])
             C["probe.parameters_updated_in_place"] += 1
             log.add("update_parameters", oi)
+            C["fault.parameters_replaced_on_the_live_object"] += 1
             keyparts.append("update_parameters")
             continue
         req = {pid: r["ages"] for pid, r in op["req"].items()}
